@@ -560,6 +560,11 @@ def r05_3(ctx):
 
 # ------------------------------------------------------------------ deeper structure of the dependency manager / progress counters
 
+def Fl_leaves_fields(ctx, b, op):
+    """leaves of an operand inside a closure body, resolving captured values through the upvars"""
+    return [C.Leaf("field", None, l.data) for l in prov(ctx).leaves(b, op, expand_fields=False) if l.kind in ("field",)]
+
+
 HS_INSERT = "std::collections::HashSet::<T, S, A>::insert"
 HS_CONTAINS = "std::collections::HashSet::<T, S, A>::contains"
 
@@ -573,7 +578,12 @@ def r02_7(ctx):
     nf = body(ctx, "notify_finish")
     if ad:
         not_fin = bool_call_edges(ad, lib, HS_CONTAINS, False, arg_pred=lambda t: has_field(C.trace(ad, t["args"][0]), "finished"))
-        if not not_fin:
+        in_closure = any(C.callee_name(t) == HS_CONTAINS and has_field(Fl_leaves_fields(ctx, c, t["args"][0]), "finished")
+                         for c in lib.closures_of(ad) for bb, t in c.calls())
+        if not not_fin and in_closure:
+            ctx.unverified("finished-check in an iterator adaptor closure", detail="the finished-test moved into a closure passed to an iterator "
+                           "adaptor (filter/skip_while..): its effect on the loop is not modelled", site=ctx.site(ad, 0))
+        elif not not_fin:
             ctx.violation(["finished-check"], "add_dependency no longer tests whether a dependency already finished (a file could wait forever for "
                           "a dependency that will never be announced again)", site=ctx.site(ad, 0))
         else:
@@ -603,7 +613,11 @@ def r02_7(ctx):
                             (leaf.data["op"] == "Eq" and has_const(C.trace(nf, leaf.data["b"]), "1_usize") and v is True) or
                             (leaf.data["op"] == "Gt" and has_const(C.trace(nf, leaf.data["b"]), "1_usize") and v is False)))
         if not rel:
-            ctx.anchor_missing("release (output.insert) in notify_finish")
+            if lib.closures_of(nf):
+                ctx.unverified("release logic of notify_finish lives in iterator adaptor closures", site=ctx.site(nf, 0),
+                               detail="filter/collect style: the per-edge decision is in a closure called by std; not modelled")
+            else:
+                ctx.anchor_missing("release (output.insert) in notify_finish")
         for bb, t in rel:
             if le and C.guarded(nf, bb, le):
                 ctx.ok("a depender is released only when its last outstanding edge is removed", site=ctx.site(nf, bb))
@@ -720,7 +734,11 @@ def r02_8(ctx):
                         decs.append(bb)
         rels = [bb for bb, t in calls_to(nf, HS_INSERT) if not has_field(C.trace(nf, t["args"][0]), "finished")]
         if not heads or not some_e or not (decs and rels):
-            ctx.anchor_missing("depender loop with decrement and release in notify_finish")
+            if lib.closures_of(nf):
+                ctx.unverified("depender loop of notify_finish is an iterator chain", site=ctx.site(nf, 0),
+                               detail="decrement / release happen inside closures called by std adaptors; not modelled")
+            else:
+                ctx.anchor_missing("depender loop with decrement and release in notify_finish")
         else:
             reached = nf.reachable_from_edges(some_e, cut=out_edges(nf, decs + rels))
             esc = [h for h in heads if h in reached]
@@ -751,7 +769,7 @@ def r05_4(ctx):
         t = b.term(bb)
         if t["k"] == "call" and C.is_from_residual(t):
             # `?`: acceptable only for the resolution of the dependency path (share_base)
-            src = C.trace(b, t["args"][0], through_decorators=True, through_try=True)
+            src = residual_origin(b, t)
             if all(leaf_is_call(l, ROLE["share_base"]) for l in src) and src:
                 continue
             bad.append((bb, "`?` on %s" % sorted({(l.callee() or l.kind) for l in src})))
